@@ -24,6 +24,7 @@ skip_fuel_adequate skip_stack_le_consumed
 parse_encW parse_sound wellformed_iff skip_agrees_parse skip_ok_ends_at_parse""".split()]
 # ----------------------------------------------------------------------------------------------
 PACKAGES = ["hcore"]
+DEBUG_TWINS = True
 
 NOALLOC_DIR = os.path.join(runner.HARNESS, "noalloc")
 NOALLOC_BIN = os.path.join(runner.target_dir(os.path.join(NOALLOC_DIR, "target")), "release", "hnoalloc")
